@@ -19,11 +19,13 @@ import (
 	"github.com/henrylee2cn/erpc/v6/proto/httproto"
 	"github.com/henrylee2cn/erpc/v6/proto/jsonproto"
 	"github.com/henrylee2cn/erpc/v6/proto/pbproto"
+	"github.com/henrylee2cn/erpc/v6/proto/thriftproto"
 	"github.com/henrylee2cn/erpc/v6/socket"
 	"github.com/henrylee2cn/erpc/v6/utils"
 )
 
-var mode = flag.String("mode", "raw", "raw|json|pb|http|replies")
+var noStop = flag.Bool("nostop", false, "do not stop after six oracle failures")
+var mode = flag.String("mode", "raw", "raw|json|pb|http|thriftbin|thriftstruct|replies")
 
 type bufRW struct{ bytes.Buffer }
 
@@ -96,6 +98,9 @@ func buildFrame(pf erpc.ProtoFunc, mtype byte, seq int32, method string, body []
 	rw := &bufRW{}
 	p := pf(rw)
 	st := []socket.MessageSetting{socket.WithServiceMethod(method), socket.WithBody(body), socket.WithBodyCodec('j')}
+	if *mode == "thriftstruct" { // only thrift structs can be bodies there: send none
+		st = []socket.MessageSetting{socket.WithServiceMethod(method)}
+	}
 	for _, kv := range meta {
 		st = append(st, socket.WithAddMeta(kv[0], kv[1]))
 	}
@@ -242,6 +247,16 @@ func genStream(r *rand.Rand, pf erpc.ProtoFunc, callName, pushName string, lim u
 			return append(append([]byte(nil), all...), f...), "gzip-bomb"
 		}
 	}
+	if (*mode == "thriftbin" || *mode == "thriftstruct") && r.Intn(15) == 0 {
+		// a THeader frame that selects the COMPACT inner protocol and announces a 64 MiB method name
+		// (frames packed by erpc itself always use the binary inner protocol). 2 GiB can be announced
+		// just as well (26 bytes in, 4 GiB allocated, minutes of copying): 64 MiB keeps the run short.
+		f := []byte{0, 0, 0, 0x15, 0x0f, 0xff, 0, 0, 0, 0, 0, 1, 0, 1, 2, 0, 0, 0, 0x82, 0x21, 0x01, 0x80, 0x80, 0x80, 0x20}
+		if r.Intn(2) == 0 { // as the very first frame of the connection
+			return f, "thrift-compact-name"
+		}
+		return append(append([]byte(nil), all...), f...), "thrift-compact-name"
+	}
 	switch {
 	case k == 0 || len(all) == 0:
 		return RandBytes(r, r.Intn(80)), "random"
@@ -290,6 +305,9 @@ func genStream(r *rand.Rand, pf erpc.ProtoFunc, callName, pushName string, lim u
 
 func main() {
 	cfg := ParseFlags()
+	// importing proto/thriftproto makes the thrift codec the process-wide default (an init side
+	// effect of that package): every other mode wants the library's own default back
+	erpc.SetDefaultBodyCodec('j')
 	if *mode == "replies" {
 		runReplies(cfg)
 		return
@@ -314,6 +332,10 @@ func main() {
 		pf = pbproto.NewPbProtoFunc()
 	case "http":
 		pf = httproto.NewHTTProtoFunc()
+	case "thriftbin":
+		pf = thriftproto.NewBinaryProtoFunc()
+	case "thriftstruct":
+		pf = thriftproto.NewStructProtoFunc()
 	default:
 		pf = socket.RawProtoFunc
 	}
@@ -333,7 +355,7 @@ func main() {
 	distinct := DistinctSet{}
 	var ms runtime.MemStats
 	for i := 0; i < cfg.N; i++ {
-		if len(st.OracleFailures) >= 6 {
+		if len(st.OracleFailures) >= 6 && !*noStop {
 			st.Count("stopped-early-after-failures")
 			break // every failing case costs its watchdogs; six precise failures are enough
 		}
@@ -407,7 +429,11 @@ func main() {
 			st.Fail(i, "over-allocation", fmt.Sprintf("a buffer of %d bytes was requested under a read limit of %d", maxAlloc, lim), human)
 		}
 		if delta > 64*uint64(int(lim)+len(s))+(8<<20) {
-			st.Fail(i, "over-allocation", fmt.Sprintf("%d bytes allocated while reading %d input bytes under a read limit of %d", delta, len(s), lim), human)
+			key := "over-allocation"
+			if class == "thrift-compact-name" {
+				key = "thrift-compact-announced-name" // the thrift library's own allocation, see known_findings.txt
+			}
+			st.Fail(i, key, fmt.Sprintf("%d bytes allocated while reading %d input bytes under a read limit of %d", delta, len(s), lim), human)
 		}
 		if class == "oversize-announced" && !discBeforeEOF {
 			st.Fail(i, "oversize-not-refused", "a frame announcing more than the read limit did not disconnect the session before its payload arrived", human)
